@@ -114,6 +114,8 @@ type FuncVC struct {
 	callPre     map[string][]*State // label -> heap before each execution site of a watched call
 	callGuard   map[string][]Term   // label -> reachability of each execution site
 	callBlock   map[string][]*ssa.BasicBlock // label -> block of each execution site
+	callInstr   map[string][]ssa.Instruction // label -> the call instruction of each executed site (same order)
+	siteCache   map[string][]ssa.Instruction // label -> matching call instructions in source order
 	callPost    map[string][]*State // label -> heap after it (effects applied)
 	goalSkolemised bool // the last goal evaluation replaced a universal by fresh constants
 	funCache    map[string]string
@@ -166,7 +168,7 @@ func NewFuncVC(p *Prog, fn *ssa.Function, c *Contract) *FuncVC {
 		loopOf: map[*ssa.BasicBlock]*loopInfo{}, nonNil: map[ssa.Value]bool{}, localAlloc: map[*ssa.Alloc]bool{},
 		debugRefs: map[string][]*ssa.DebugRef{}, typeIDs: map[string]int{}, concreteTypes: map[int]types.Type{}, ifaceTypes: map[int]types.Type{}, boxDecl: map[string]bool{},
 		funcDecl: map[string]bool{}, oblSeq: map[string]int{}, abstracted: map[string]int{},
-		assumedUsed: map[string]bool{}, contractUse: map[string]bool{}, iterOf: map[ssa.Value]*iterInfo{}, logicUsed: map[string]bool{}, logTypes: map[string]types.Type{}, axiomDone: map[*Clause]bool{}, skolems: map[string][][]Term{}, skolemFns: map[string][]skolemFn{}, callPre: map[string][]*State{}, callGuard: map[string][]Term{}, callBlock: map[string][]*ssa.BasicBlock{}, watchHit: map[string]bool{}, callPost: map[string][]*State{}, funCache: map[string]string{}, escapes: map[ssa.Value][]ssa.Instruction{}, cellConst: map[*ssa.FreeVar]Term{}, freshVals: map[ssa.Value]bool{}, closureOf: map[string]*ssa.Function{}, closureMC: map[string]*ssa.MakeClosure{}, lemmasUsed: map[string]bool{}}
+		assumedUsed: map[string]bool{}, contractUse: map[string]bool{}, iterOf: map[ssa.Value]*iterInfo{}, logicUsed: map[string]bool{}, logTypes: map[string]types.Type{}, axiomDone: map[*Clause]bool{}, skolems: map[string][][]Term{}, skolemFns: map[string][]skolemFn{}, callPre: map[string][]*State{}, callGuard: map[string][]Term{}, callBlock: map[string][]*ssa.BasicBlock{}, callInstr: map[string][]ssa.Instruction{}, watchHit: map[string]bool{}, callPost: map[string][]*State{}, funCache: map[string]string{}, escapes: map[ssa.Value][]ssa.Instruction{}, cellConst: map[*ssa.FreeVar]Term{}, freshVals: map[ssa.Value]bool{}, closureOf: map[string]*ssa.Function{}, closureMC: map[string]*ssa.MakeClosure{}, lemmasUsed: map[string]bool{}}
 	if c != nil {
 		vc.watches = c.Watches
 		vc.bv = c.Mode == "bv"
